@@ -59,8 +59,13 @@ def cfg_line(c):
 
 
 def random_cfg(rng, modes):
-    return {"mode": rng.choice(modes), "limit": rng.randint(1, 4), "perip": rng.choice([0, 1, 1, 2, 2, 3]),
-            "suspend": rng.choice([0, 1, 1]), "upgrade": rng.choice([0, 1, 1]), "nts": rng.choice([0, 0, 1])}
+    c = {"mode": rng.choice(modes), "limit": rng.randint(1, 4), "perip": rng.choice([0, 1, 1, 2, 2, 3]),
+         "suspend": rng.choice([0, 1, 1]), "upgrade": rng.choice([0, 1, 1]), "nts": rng.choice([0, 0, 1])}
+    if "-thr" in c["mode"]:
+        # the daemon thread runs asynchronously: the model cannot tell which operations are legal at a given
+        # script line, so no application-side suspend (a stop with a suspended connection is API misuse)
+        c["suspend"] = 0; c["nts"] = 0
+    return c
 
 
 def close_everything(m):
@@ -169,6 +174,10 @@ def gen_history(rng, name, modes, nops=None):
             L.append("resume %d" % c)
         if rng.random() < 0.5:
             L.append(SETTLE)
+        # connections that are still in `new_connections` (thread-safe mode) when the daemon stops
+        for _ in range(rng.choice([0, 1, 2, 3])):
+            if m.next < 30:
+                L.append("arrive %d %d %d" % (m.next, rng.choice([1, 2, 3, 0]), 1)); m.next += 1
     L.append("stop")
     for rid in (1, 2, 3, 4):
         L.append("resp-drop %d" % rid)
@@ -196,6 +205,29 @@ def gen_allocfail_enum(cfgs):
                 L += [SETTLE, "mark fresh-batch", "query", "stop"]
                 L += ["resp-drop %d" % r for r in (1, 2, 3, 4)]
                 out.append(L)
+    return out
+
+
+def gen_stop_with_new(modes):
+    """connections still waiting in `new_connections` (or just admitted) when MHD_stop_daemon runs"""
+    out = []
+    i = 0
+    for mode in modes:
+        for nts in (0, 1):
+            for perip in (0, 2):
+                for n in (1, 2, 3):
+                    for pre in (0, 1):
+                        cfg = {"mode": mode, "limit": 2, "perip": perip, "suspend": 1, "upgrade": 1, "nts": nts}
+                        L = ["case sn%d" % i, cfg_line(cfg), "start"] + RESP_SETUP
+                        i += 1
+                        nid = 0
+                        if pre:
+                            L += ["arrive 0 1 1", SETTLE]; nid = 1
+                        for k in range(n):
+                            L.append("arrive %d %d 1" % (nid, 1 + k % 2)); nid += 1
+                        L.append("stop")
+                        L += ["resp-drop %d" % r for r in (1, 2, 3, 4)]
+                        out.append(L)
     return out
 
 
@@ -393,7 +425,9 @@ def shape(s):
 class Spec:
     props_module = "Mhd.Props.C09"
     lean_targets = ["Mhd.Props.C09", "drv_daemon"]
-    required_theorems = ["Mhd.C09.step_inv", "Mhd.C09.run_inv", "Mhd.C09.limits_hold", "Mhd.C09.capacity_restored"]
+    required_theorems = ["Mhd.C09.step_inv", "Mhd.C09.run_inv", "Mhd.C09.limits_hold", "Mhd.C09.capacity_restored", "Mhd.C09.close_all_then_round",
+                         "Mhd.C09.stop_exactly_once", "Mhd.C09.lifecycle_balance", "Mhd.C09.refcount_refines",
+                         "Mhd.C09.free_callback_at_zero", "Mhd.C09.free_callback_exactly_once"]
     trusted_base = ["Lean 4 kernel", "axioms: propext, Classical.choice, Quot.sound at most (audited per theorem)",
                     "hand-written model lean/Mhd/Model/Limits.lean tied to daemon.c/response.c by this run's correspondence",
                     "harness/h_limits.c (close/epoll_ctl/malloc interposers, scripted clients), gcc, ASan/UBSan/LSan",
@@ -508,7 +542,9 @@ class Spec:
     def compare(self, cases, hper, failures, stats):
         mcases, idx = [], []
         for ci, c in enumerate(cases):
-            t = self.translate(c, hper[ci])
+            # internal-thread modes: the daemon thread runs asynchronously to the script, the model's round
+            # structure does not apply — implementation-side oracle only
+            t = None if ("-thr" in c[1] or "mode=tpc" in c[1]) else self.translate(c, hper[ci])
             if t is not None:
                 mcases.append(t); idx.append(ci)
             else:
@@ -519,21 +555,15 @@ class Spec:
         for j, c in enumerate(mcases):
             mper[idx[j]] = mch[k:k + len(c)]; k += len(c)
         for ci, c in enumerate(cases):
+            # (iii) the oracle reads the whole harness log of the case, independently of the model
             orc = Oracle()
-            bad = None
+            obad = None
             h = hper[ci]
             for j, l in enumerate(c):
                 hc = h[j] if j < len(h) else ["<no output>"]
                 e = orc.feed(l, hc)
                 if e:
-                    bad = ("oracle", e, j); break
-                if ci in mper:
-                    mc = mper[ci][j] if j < len(mper[ci]) else ["<no output>"]
-                    if l.startswith("alloc-fail "):
-                        continue
-                    d = diff_chunk(hc, mc)
-                    if d:
-                        bad = ("diff", "line %d `%s`: %s" % (j, l, d), j); break
+                    obad = ("oracle", e, j); break
                 for x in hc:
                     t = x.split()[0] if x.split() else ""
                     if t in stats["events"]:
@@ -542,14 +572,28 @@ class Spec:
                         stats["alloc_failed"][x.split("=")[1]] = stats["alloc_failed"].get(x.split("=")[1], 0) + 1
                     if x.startswith("queued") and x.endswith("-> 0"):
                         stats["events"]["queue-refused"] += 1
-            if not bad:
+            if not obad:
                 e = orc.finish()
                 if e:
-                    bad = ("oracle", e, len(c) - 1)
+                    obad = ("oracle", e, len(c) - 1)
+            # (ii) model vs code, line by line
+            dbad = None
+            if ci in mper:
+                for j, l in enumerate(c):
+                    if l.startswith("alloc-fail "):
+                        continue
+                    hc = h[j] if j < len(h) else ["<no output>"]
+                    mc = mper[ci][j] if j < len(mper[ci]) else ["<no output>"]
+                    d = diff_chunk(hc, mc)
+                    if d:
+                        dbad = ("diff", "line %d `%s`: %s" % (j, l, d), j); break
             stats["accepted"] += orc.stats["accepted"]; stats["refused"] += orc.stats["refused"]
+            bad = obad or dbad
             if bad:
                 kind, det, j = bad
-                failures.append(vlib.Failure(kind, "daemon: " + shape(det if kind == "oracle" else "model/code differ: " + det.split(":", 1)[1]),
+                if obad and dbad:
+                    det += "   [model/code also differ: %s]" % dbad[1][:300]
+                failures.append(vlib.Failure(kind, "daemon: " + shape(det.split("   [")[0] if kind == "oracle" else "model/code differ: " + det.split(":", 1)[1]),
                                              det, c, ENGINE))
 
     def explore(self, ctx, boost):
@@ -573,7 +617,10 @@ class Spec:
         exh = gen_exhaustive_small(modes)
         afc = [{"mode": m, "limit": 2, "perip": p, "suspend": 1, "upgrade": 1, "nts": n}
                for m in modes for p in (0, 2) for n in (0, 1)]
-        af = gen_allocfail_enum(afc)
+        af = gen_allocfail_enum(afc) + gen_stop_with_new(modes)
+        # tie (A): the regenerated defaults are what the running daemon really uses
+        af.append(["case defaults", "cfg mode=select limit=0 perip=0 suspend=0 upgrade=0 nts=0", "start", "defaults",
+                   "arrive 0 1 1", "settle", "stop"])
         nrand = (12000 if thorough else 1500) * (3 if boost else 1)
         rnd = [gen_history(ctx.rng, "r%d" % i, modes) for i in range(nrand)]
         allc = cases + self.prefilter(exh + af + rnd)
@@ -582,6 +629,17 @@ class Spec:
             self.run_cases(allc[i:i + B], failures, stats)
             if len(failures) > 25:
                 break
+        # internal polling thread (thorough tier only): oracle + sanitizers, no model comparison
+        thr = []
+        if thorough and len(failures) <= 25:
+            for mode in ("select-thr", "poll-thr", "epoll-thr"):
+                for i in range(80):
+                    thr.append(gen_history(ctx.rng, "%s%d" % (mode, i), [mode]))
+            for i in range(0, len(thr), 40):
+                self.run_cases(thr[i:i + 40], failures, stats)
+                if len(failures) > 25:
+                    break
+            allc = allc + thr
         distinct = len({json.dumps(c[1:]) for c in allc})
         cov = {"evaluations": len(allc), "distinct_nontrivial": distinct,
                "rule": "histories run on the real daemon and on the Lean model; distinct = different scripts (cfg + ops); "
@@ -589,7 +647,7 @@ class Spec:
                        "x select/epoll x thread-safe/not, each with close + capacity check; allocation-failure enumeration: "
                        "k-th allocation (k=1..7) of an arrival fails; random histories with arrivals from 3 addresses + a non-IP one",
                "samples": [rnd[0][:40], af[3]],
-               "exhaustive_histories": len(exh), "allocfail_histories": len(af), "random_histories": len(rnd), "corpus": ncorp,
+               "threaded_histories_oracle_only": len(thr), "exhaustive_histories": len(exh), "allocfail_histories": len(af), "random_histories": len(rnd), "corpus": ncorp,
                "outcomes": stats, "exhaustive": False,
                "correspondence": {"MHD_add_connection/internal_add_connection/new_connection_prepare_/new_connection_process_/"
                                   "new_connections_list_process_/MHD_ip_limit_add/MHD_ip_limit_del/MHD_cleanup_connections/"
